@@ -38,7 +38,7 @@ C20_CLAUSES = ["no_sanitizer_report", "no_crash", "terminates"]
 C18_CLAUSES = ["completed", "pair_equals_fresh", "chain_equals_fresh", "uninit_read", "builds_agree"]
 
 TIERS = {
-    "c04": {"quick": dict(B=6, nrandom=0, maxdim=16, budget_ms=5000),
+    "c04": {"quick": dict(B=6, nrandom=12000, maxdim=8, budget_ms=5000),
             "thorough": dict(B=9, B5=6, nrandom=6000, maxdim=16, budget_ms=10000)},
     "c20": {"quick": dict(B=6, nrandom=0, maxdim=24, budget_ms=5000, pairB=6, pairK=3),
             "thorough": dict(B=9, nrandom=8000, maxdim=24, budget_ms=10000, pairB=8, pairK=4)},
